@@ -40,8 +40,8 @@ class StreamNode(ConfigList):
     def on_premerge_impl(self, path, into):
         self.clear()
         self.builder.flatten()
-        if self._priority != ConfigNode.STANDARD:
+        if self.ayns.priority != ConfigNode.STANDARD:
             # (given by the include node: the priority of the place this content goes to, for everything in it)
-            self.builder.stages[0] = ConfigNode(self.builder.stages[0], priority=self._priority)
+            self.builder.stages[0] = ConfigNode(self.builder.stages[0], priority=self.ayns.priority)
         self.append(self.builder.stages[0])
         return self.builder.stages[0].ayns.on_premerge(path, into)
